@@ -53,6 +53,13 @@ _KNOWN_ATTR_QNAME = known("C11-attribute-qname-rewrite")
 _KNOWN_DERIVED_TAIL = known("C11-derived-primitive-tail-lost")
 
 
+def _leaftext(s):
+    """Text of a CHILDLESS element: any XML chars, white-space-only included (the property's exception is only about
+    white space next to child elements); XML white space only, to stay clear of the listed unicode-space finding."""
+    cps = [ord(ch) for ch in s]
+    return all([_is_xml_char(c) for c in cps]) and all([_is_xmlspace(c) for c in cps])
+
+
 def _gen(shape, n0, n1, n2, s0, s1, a0):
     """shape 0: leaf; 1: one child; 2: two children; 3: child with grandchild; 4: two children, first with a grandchild;
     5: leaf carrying xsi:type="xs:string" with the xs prefix declared on itself; 6: child whose attribute value LOOKS like a
@@ -63,6 +70,13 @@ def _gen(shape, n0, n1, n2, s0, s1, a0):
     root = leaf(n0, s0, None, {ANAMES[a0]: s1} if a0 < len(ANAMES) else {})
     if shape == 5:
         return mutate.Node(NAMES[n0], {"{%s}type" % seam.XSI: "xs:string"}, s0 if s0 != "" else None, None, [], [("xs", XS)])
+    if shape == 7:
+        inner = mutate.Node(NAMES[n2], {"{%s}type" % seam.XSI: "p:T"}, s1 if s1 != "" else None, None, [], [("p", "urn:b")])
+        mid = mutate.Node(NAMES[n1], {}, None, None, [inner])
+        root.attrs = {}
+        root.text = None
+        root.children = [mid]
+        return root
     if shape == 6:
         val = ["x:y", "zz:" + s1, "q:thing"][a0 % 3]
         if a0 % 3 == 2 and _KNOWN_ATTR_QNAME:
@@ -93,6 +107,8 @@ def _norm(node):
     tkey = "{%s}type" % seam.XSI
     if node.attrs.get(tkey) == "xs:string":
         node = mutate.Node(node.qname, dict(node.attrs, **{tkey: "{%s}string" % XS}), node.text, node.tail, node.children, node.ns)
+    if node.attrs.get(tkey) == "p:T":
+        node = mutate.Node(node.qname, dict(node.attrs, **{tkey: "{urn:b}T"}), node.text, node.tail, node.children, node.ns)
     kids = []
     if node.text:
         kids.append(node.text)
@@ -111,7 +127,7 @@ def tree_rt(shape: int, n0: int, n1: int, n2: int, s0: str, s1: str, a0: int) ->
     pre: n2 == (n0 + 2) % len(NAMES)
     pre: len(s0) <= SLEN
     pre: len(s1) <= SLEN
-    pre: _textok(s0)
+    pre: _textok(s0) or (shape == 0 and PART.get("place") != "mixed" and _leaftext(s0))
     pre: _textok(s1)
     pre: 0 <= a0 <= len(ANAMES)
     post: _
@@ -132,7 +148,9 @@ def tree_rt(shape: int, n0: int, n1: int, n2: int, s0: str, s1: str, a0: int) ->
         captured = seam.parse_context(mutate.linearize(host), Wild, handler, ParserConfig(), c01._context(Wild)).any
         return result(deep_eq(obj, obj2) and deep_eq(obj, captured))
     else:
-        if place == "wild":
+        if place == "wild2":
+            cls, doc = Wild, mutate.Node("{urn:a}wild", {}, None, None, [g, mutate.Node(NAMES[(n0 + 1) % len(NAMES)], {"k": "v"}, "t")])
+        elif place == "wild":
             cls, doc = Wild, mutate.Node("{urn:a}wild", {}, None, None, [mutate.Node("{urn:a}known", {}, "1"), g])
         elif place == "list":
             if g.qname.startswith("{urn:") is False:
@@ -155,7 +173,7 @@ _CTXS = {}
 
 def _ctx():
     place = PART.get("place", "tree")
-    cls = {"wild": Wild, "list": WildList, "mixed": Mixed}.get(place)
+    cls = {"wild": Wild, "wild2": Wild, "list": WildList, "mixed": Mixed}.get(place)
     return c01._context(cls)
 
 
@@ -204,13 +222,15 @@ EXPLAIN = {}
 def plan(tier):
     jobs = []
     quick = tier == "quick"
-    for p_i, place in enumerate(("tree", "wild", "list", "mixed")):
-        for shape in range(7):
+    for p_i, place in enumerate(("tree", "wild", "list", "mixed", "wild2")):
+        for shape in range(8):
             for h_i, handler in enumerate(("native", "lxml")):
                 if quick and (p_i + shape + h_i) % 2:
                     continue
                 if place == "tree" and shape == 5:
                     continue  # not comparable (see tree_rt)
+                if place == "wild2" and shape not in (0, 1, 7):
+                    continue
                 for writer in (("native", "lxml") if not quick else (("native", "lxml")[(h_i + shape) % 2],)):
                     for rot in ((0,) if quick else (0, 1, 2)):
                         jobs.append(Job("tree_rt", {"place": place, "shape": shape, "rot": rot, "handler": handler, "writer": writer, "slen": 1 if quick else 2}, 240 if quick else 1200, 30))
